@@ -151,6 +151,7 @@ class RowExec:
         self.prog = prog
         self.b = body
         self.rows: Dict[str, sp.Expr] = {}
+        self.row_nodes: Dict[str, ast.AST] = {}
         self.notes: List[str] = []
         self.heap: Dict[sp.Symbol, Dict[str, object]] = {}
         self.inplace_on_record: List[ast.AST] = []
@@ -164,6 +165,27 @@ class RowExec:
             self.comp_obj[c] = o
         self.T = self._translator({}, body.func.module, depth=0)
         self.T.env[rec] = self.rec_obj
+        if getattr(body, "form", "A") == "B":
+            self.T.env[f"records[{body.org_idx}]"] = self.rec_obj
+        self._prelude(body)
+
+    def _prelude(self, body):
+        """Aliases of settings fields / registry look-ups made before the per-record loop (function and group level)."""
+        f = body.func
+        pre = [st for st in f.node.body if isinstance(st, ast.Assign) and st.lineno < body.group_loop.lineno]
+        if body.group_loop is not body.record_loop:
+            pre += [st for st in body.group_loop.body if isinstance(st, ast.Assign) and st.lineno < body.record_loop.lineno]
+        for st in pre:
+            if not all(isinstance(t, (ast.Name, ast.Tuple)) for t in st.targets):
+                continue
+            v = st.value
+            simple = not any(isinstance(x, ast.Call) and call_name(x) not in ("tuple", "list", "dict", "copy", "deepcopy") for x in ast.walk(v))
+            if not simple:
+                continue
+            try:
+                self._run([st], self.T)
+            except AnalysisError:
+                pass
 
     # ---------------------------------------------------------------- heap
     def _new_obj(self, amplitude, caller=False, label="obj"):
@@ -176,6 +198,7 @@ class RowExec:
         T = Translator(env=env)
         T._module = module
         T._depth = depth
+        T.unroll_comps = True
         T.call_hook = self._hook
         T.symbol_hook = None
         orig_attr = T.t_Attribute
@@ -200,13 +223,24 @@ class RowExec:
         T.t_Attribute = t_attribute
         return T
 
+    def _is_setting(self, node: ast.AST, dotted_name: str, T: Translator) -> bool:
+        if unparse(node) == dotted_name:
+            return True
+        try:
+            v = T.tr(node)
+        except AnalysisError:
+            return False
+        while getattr(getattr(v, "func", None), "__name__", "") in ("tuple", "list", "dict", "copy", "deepcopy") and len(v.args) == 1:
+            v = v.args[0]
+        return v == Translator().tr(ast.parse(dotted_name, mode="eval").body)
+
     # ---------------------------------------------------------------- calls
     def _hook(self, call: ast.Call, T: Translator):
         nm = call_name(call)
         f = call.func
         args = [a for a in call.args if not isinstance(a, ast.Starred)]
         if nm == "rfft" and args:
-            if not any(k.arg is None and unparse(k.value) == "settings.fft_settings" for k in call.keywords):
+            if not any(k.arg is None and self._is_setting(k.value, "settings.fft_settings", T) for k in call.keywords):
                 self.notes.append(f"rfft without **settings.fft_settings at line {call.lineno}")
             return rfft_(T.tr(args[0]))
         if nm == "from_timeseries" and args:
@@ -279,18 +313,28 @@ class RowExec:
                         T.env[t.id] = T.tr(st.value)
                 elif isinstance(t, ast.Subscript):
                     self.rows[unparse(t)] = T.tr(st.value)
+                    self.row_nodes[unparse(t)] = t
                 elif isinstance(t, (ast.Tuple, ast.List)) and isinstance(st.value, (ast.Tuple, ast.List)) and len(t.elts) == len(st.value.elts):
                     vals = [T.tr(v) for v in st.value.elts]
                     for e, v in zip(t.elts, vals):
                         if isinstance(e, ast.Name):
                             T.env[e.id] = v
+                elif isinstance(t, (ast.Tuple, ast.List)):
+                    try:
+                        v = T.tr(st.value)
+                    except AnalysisError:
+                        v = None
+                    if isinstance(v, sp.Tuple) and len(v) == len(t.elts):
+                        for e, x in zip(t.elts, v):
+                            if isinstance(e, ast.Name):
+                                T.env[e.id] = x
             elif isinstance(st, ast.Expr) and isinstance(st.value, ast.Call) and call_name(st.value) == "window" \
                     and isinstance(st.value.func, ast.Attribute):
                 try:
                     tgt = T.tr(st.value.func.value)
                 except AnalysisError:
                     tgt = None
-                if not any(isinstance(a, ast.Starred) and unparse(a.value) == "settings.window_type_and_width" for a in st.value.args):
+                if not any(isinstance(a, ast.Starred) and self._is_setting(a.value, "settings.window_type_and_width", T) for a in st.value.args):
                     self.notes.append(f"window() without *settings.window_type_and_width at line {st.lineno}")
                 targets = []
                 if tgt == self.rec_obj:
@@ -305,6 +349,14 @@ class RowExec:
                         h["amplitude"] = taper(h["amplitude"])
             elif isinstance(st, ast.AugAssign):
                 forward_substitute([st], T)
+            elif isinstance(st, ast.Expr) and isinstance(st.value, ast.Call) and call_name(st.value) == "append" and isinstance(st.value.func, ast.Attribute) \
+                    and isinstance(st.value.func.value, ast.Name) and isinstance(T.env.get(st.value.func.value.id), sp.Tuple) and len(st.value.args) == 1:
+                T.env[st.value.func.value.id] = sp.Tuple(*T.env[st.value.func.value.id], T.tr(st.value.args[0]))
+            elif isinstance(st, ast.For) and isinstance(st.iter, (ast.Tuple, ast.List)) and len(st.iter.elts) <= 8 and isinstance(st.target, ast.Name):
+                # loop over a literal sequence (e.g. the three components): unrolled
+                for e in st.iter.elts:
+                    T.env[st.target.id] = T.tr(e)
+                    self._run(st.body, T)
             elif isinstance(st, ast.For):
                 # azimuth loop of RotDpp: execute the body once with a symbolic azimuth
                 az = self.az if self.az is not None else sp.Symbol("azimuth", real=True)
